@@ -20,6 +20,8 @@ from rules.facts import Facts            # noqa: E402
 from selftest import mutants             # noqa: E402
 
 REPO = extract.REPO
+# recorded (unrepaired) findings of the reference tree are not what a mutant is judged by: exact keys only
+KNOWN_KEYS = {k["key"] for k in core.load_known().get("known", [])}
 
 
 def make_scratch(edits, patch=None):
@@ -73,7 +75,7 @@ def run_checks(scratch, props, slot):
         mod = importlib.import_module("rules.props." + p)
         ctx = core.Ctx(p, F, "default", "quick")
         mod.run(ctx)
-        res[p] = [(o.key, o.detail) for o in ctx.obs if not o.ok]
+        res[p] = [(o.key, o.detail) for o in ctx.obs if not o.ok and o.key not in KNOWN_KEYS]
     return res
 
 
